@@ -43,10 +43,16 @@ Definition expected_cell (c : col) (j : job) : cell :=
 Definition CellsSpec (h : list col) (j : job) (row : list cell) : Prop :=
   Forall2 (fun c v => c = CPareto \/ v = expected_cell c j) h row.
 
+(* the kind the header may have: the kind of the jobs; when EVERY job failed the table says nothing about the arity and an
+   evaluator that learnt it from an earlier search on the same evaluator may replicate the labels into objective_0..m-1 *)
+Definition is_str_job (j : job) : bool := match objective_of j with OStr _ => true | _ => false end.
+Definition HKind (jobs : list job) (k : kind) : Prop :=
+  k = kind_of jobs \/ (forallb is_str_job jobs = true /\ exists m, k = Vec m /\ (2 <= m)%nat).
+
 Definition HeaderSpec (jobs : list job) (h : list col) : Prop :=
-  exists j0, In j0 jobs
-    /\ (forall c, In c h -> c = CPareto \/ In c (header_of (kind_of jobs) j0))
-    /\ (forall c, In c (header_of (kind_of jobs) j0) -> In c h).
+  exists j0 k, In j0 jobs /\ HKind jobs k
+    /\ (forall c, In c h -> c = CPareto \/ In c (header_of k j0))
+    /\ (forall c, In c (header_of k j0) -> In c h).
 
 Definition succ_rows (h : list col) (rows : list (list cell)) : list (list cell) :=
   filter (fun r => negb (row_failed h r)) rows.
@@ -71,8 +77,11 @@ Definition cmem (c : col) (l : list col) : bool := existsb (col_eqb c) l.
 Definition inclb (a b : list col) : bool := forallb (fun c => cmem c b) a.
 Definition no_pareto (h : list col) : list col := filter (fun c => negb (col_eqb c CPareto)) h.
 
+Definition ok_header_kind (k : kind) (jobs : list job) (h : list col) : bool :=
+  existsb (fun j0 => inclb (no_pareto h) (header_of k j0) && inclb (header_of k j0) h) jobs.
 Definition ok_header (jobs : list job) (h : list col) : bool :=
-  existsb (fun j0 => inclb (no_pareto h) (header_of (kind_of jobs) j0) && inclb (header_of (kind_of jobs) j0) h) jobs.
+  ok_header_kind (kind_of jobs) jobs h
+  || (forallb is_str_job jobs && (2 <=? length (objcols h))%nat && ok_header_kind (Vec (length (objcols h))) jobs h).
 
 Definition find_job (id : cell) (jobs : list job) : option job :=
   find (fun j => cell_eqb id (Num (jid j))) jobs.
